@@ -757,6 +757,25 @@ func (f *frame) transCall(x *CCall, env *Env) TV {
 			return TV{T: f.bytesToStr(env.st, v.T), S: "Str", Ty: types.Typ[types.String]}
 		}
 		cfail("string() of sort %s", v.S)
+	case "freshInLoop":
+		// freshInLoop(s): the backing array of slice s (if any element) was
+		// allocated during the current iteration of the innermost loop that
+		// contains the anchor - nobody else can hold a reference to it yet
+		need(1)
+		v := arg(0)
+		if v.S != "Slice" || env.anchorBlock == nil {
+			cfail("freshInLoop needs a slice and a call-site anchor inside a loop")
+		}
+		var hdr *ssa.BasicBlock
+		for h, li := range f.loops {
+			if li.body[env.anchorBlock] && (hdr == nil || f.loops[hdr].body[h]) {
+				hdr = h
+			}
+		}
+		if hdr == nil || f.loopAlloc[hdr] == "" {
+			cfail("freshInLoop used outside a loop")
+		}
+		return TV{T: fmt.Sprintf("(or (= (s_cap %s) 0) (>= (s_base %s) %s))", v.T, v.T, f.loopAlloc[hdr]), S: "Bool"}
 	case "mk":
 		// mk(T, f0, f1, ...): struct value of type T with positional fields
 		if len(x.Args) < 1 {
